@@ -129,6 +129,18 @@ def run(chk):
             else:
                 ok = got == exp
             chk.check(ok, "R7", f"{rel}:{cname}.{start} | send_periodic arguments", st.loc(c), f"send_periodic({', '.join(got)}); expected ({', '.join(want[cname])})")
+        if "period" in st.params and cname in ("SyncProducer", "PdoMap"):
+            # a period passed to start() is the period in force: stored before the task is created, whenever it is given
+            pst = [n for n in ff.cfg.nodes if n.kind == "stmt" and isinstance(n.ast, ast.Assign) and dotted(n.ast.targets[0]) == "self.period"]
+            chk.check(len(pst) == 1 and src(pst[0].ast.value) == "period", "R7", f"{rel}:{cname}.{start} | given period stored", st.loc(), f"{[src(x.ast) for x in pst]}")
+            for a in [n for n in ff.cfg.nodes if n.kind == "stmt" and node_calls(n, ".send_periodic")]:
+                wit = must_pass(ff.cfg, lambda n: n in pst, to_nodes=[a],
+                                skip_edge=lambda n, lab: n.kind == "test" and ((src(n.ast) == "period is not None" and lab == "F") or (src(n.ast) == "period is None" and lab == "T")))
+                chk.check(wit is None, "R7", f"{rel}:{cname}.{start} | a given period is the one used", st.loc(a.ast),
+                          f"a path with a period argument reaches send_periodic without storing it (the old period is used): {path_text(wit) if wit else ''}")
+                g = [(ff.norm(e, subst=False), p) for e, p in ff.facts_at(a.ast) if "period" in src(e)]
+                chk.check(("self.period", True) in g or ("not self.period", False) in g or (ff.canon("self.period > 0"), True) in g, "R7",
+                          f"{rel}:{cname}.{start} | no task without a valid period", st.loc(a.ast), f"send_periodic under {g}")
     pmt = repo.func(NET, "PeriodicMessageTask.__init__", "C17.R7")
     chk.saw(pmt)
     msgs = [c for c in ast.walk(pmt.node) if isinstance(c, ast.Call) and dotted(c.func) == "can.Message"]
@@ -188,6 +200,26 @@ def run(chk):
             wit = must_pass(fm.cfg, lambda x: any(node_calls(x, u) for u in upd_names), from_node=n)
             chk.check(wit is None, "R3", f"{NMT}:NmtSlave.{mname} | heartbeat updated after state change", m.loc(n.ast),
                       f"after `{src(n.ast)[:50]}` a path returns without update_heartbeat()/start_heartbeat(): {path_text(wit) if wit else ''}")
+    # the heartbeat starts on the boot-up transition INITIALISING -> PRE-OPERATIONAL with the time of object 0x1017
+    sc_ = repo.func(NMT, "NmtSlave.send_command", "C17.R3")
+    fsc_ = ff_for(chk, sc_, "C17.R3")
+    starts = [c for c in find_calls(sc_.node, "self.start_heartbeat")]
+    chk.floor("R3", len(starts), 1, "start_heartbeat in NmtSlave.send_command")
+    for c in starts:
+        st = fsc_.stmt_of(c)
+        g = sorted((fsc_.norm(e, subst=False), p) for e, p in fsc_.facts_at(st) if "_state" in src(e))
+        chk.check(g == [("old_state == 0", True), ("self._state == 127", True)], "R3", f"{NMT}:NmtSlave.send_command | heartbeat starts on INITIALISING -> PRE-OPERATIONAL", sc_.loc(c),
+                  f"start_heartbeat() under {g}")
+        od_ = fsc_.raw_def_at("old_state", st)
+        chk.check(od_ is not None and src(od_) == "self._state", "R3", f"{NMT}:NmtSlave.send_command | previous state remembered", sc_.loc(c), f"old_state = {src(od_) if od_ is not None else '?'}")
+        dn = [n for n in fsc_.cfg.nodes if n.kind == "stmt" and isinstance(n.ast, ast.Assign) and src(n.ast.targets[0]) == "old_state"]
+        sup = [n for n in fsc_.cfg.nodes if n.kind == "stmt" and "send_command(code)" in src(n.ast) and "super" in src(n.ast)]
+        chk.check(bool(dn) and bool(sup) and all(fsc_.cfg.dominates(d, s_) for d in dn for s_ in sup), "R3", f"{NMT}:NmtSlave.send_command | previous state taken before the command is applied", sc_.loc(c), "")
+        a0 = c.args[0] if c.args else None
+        d0 = fsc_.raw_def_at(a0.id, st) if isinstance(a0, ast.Name) else a0
+        v0 = folder.try_fold(d0.value.slice, Scope(sc_.mod), None) if d0 is not None and isinstance(d0, ast.Attribute) and isinstance(d0.value, ast.Subscript) else None
+        chk.check(d0 is not None and isinstance(d0, ast.Attribute) and d0.attr == "raw" and src(d0.value.value) == "self._local_node.sdo" and v0 == 0x1017, "R3",
+                  f"{NMT}:NmtSlave.send_command | period taken from the heartbeat time object 0x1017", sc_.loc(c), f"{src(d0) if d0 is not None else '?'}")
     uh = repo.func(NMT, "NmtSlave.update_heartbeat", "C17.R3")
     fu = ff_for(chk, uh, "C17.R3")
     ups = [c for c in find_calls(uh.node, ".update") if dotted(c.func) == "self._send_task.update"]
@@ -248,8 +280,8 @@ def run(chk):
     for lp in loops:
         for c in ast.walk(lp):
             if isinstance(c, ast.Call) and dotted(c.func) == f"{src(lp.target)}.pdo.stop":
-                g = [src(e) for e, p in fd.facts_at(fd.stmt_of(c)) if p]
-                ok = all(x in (f"hasattr({src(lp.target)}, 'pdo')",) for x in g)
+                g = [(src(e), p) for e, p in fd.facts_at(fd.stmt_of(c))]
+                ok = all(p and x == f"hasattr({src(lp.target)}, 'pdo')" for x, p in g)
         inner = [n for n in ast.walk(lp) if isinstance(n, (ast.Break, ast.Return))]
         ok = ok and not inner
     chk.check(ok, "R5", f"{NET}:Network.disconnect | stops PDO tasks of every node", dc.loc(), "disconnect() does not call node.pdo.stop() for every node")
@@ -286,6 +318,26 @@ def run(chk):
     for a in [n for n in fu.cfg.nodes if node_calls(n, "self._start")]:
         wit = must_pass(fu.cfg, lambda n: node_calls(n, "_task.stop"), to_nodes=[a])
         chk.check(wit is None, "R6", f"{NET}:PeriodicMessageTask.update | stop before restart", up.loc(a.ast), f"{path_text(wit) if wit else ''}")
+    # both code paths of the update logic: in-place modification when the bus task supports it, otherwise restart when the data changed
+    for a in [n for n in fu.cfg.nodes if node_calls(n, ".modify_data")]:
+        g = [(fu.norm(e, subst=False), p) for e, p in fu.facts_at(a.ast)]
+        chk.check(g == [("hasattr(self._task, 'modify_data')", True)], "R6", f"{NET}:PeriodicMessageTask.update | in-place update exactly when the task supports it", up.loc(a.ast), f"modify_data under {g}")
+        c = [x for x in ast.walk(a.ast) if isinstance(x, ast.Call) and src(x.func).endswith(".modify_data")][0]
+        chk.check(dotted(c.func) == "self._task.modify_data" and [src(x) for x in c.args] == ["self.msg"], "R6", f"{NET}:PeriodicMessageTask.update | in-place update hands over the message", up.loc(a.ast), src(c))
+    for a in [n for n in fu.cfg.nodes if node_calls(n, "self._start")]:
+        g = [(fu.norm(e, subst=False), p) for e, p in fu.facts_at(a.ast)]
+        neq = [t for t, p in g if p and t in (fu.canon("new_data != old_data"), fu.canon("old_data != new_data"), fu.canon("self.msg.data != old_data"), fu.canon("old_data != self.msg.data"))]
+        rest = [(t, p) for t, p in g if t not in neq]
+        chk.check(rest in ([("hasattr(self._task, 'modify_data')", False)], []) and len(neq) <= 1, "R6", f"{NET}:PeriodicMessageTask.update | restart whenever the data changed and the task cannot be modified", up.loc(a.ast),
+                  f"restart under {g}: a changed payload is not sent (or an unchanged one restarts the task) on buses without modify_data")
+        if neq:
+            od_ = fu.raw_def_at("old_data", a.ast)
+            okd = od_ is not None and src(od_) == "self.msg.data"
+            if okd:
+                dn = [n for n in fu.cfg.nodes if n.kind == "stmt" and isinstance(n.ast, ast.Assign) and src(n.ast.targets[0]) == "old_data"]
+                okd = all(fu.cfg.dominates(d, s_) for d in dn for s_ in stores)
+            chk.check(okd, "R6", f"{NET}:PeriodicMessageTask.update | change detected against the payload sent so far", up.loc(a.ast),
+                      f"old_data = {src(od_) if od_ is not None else '?'}; it must be self.msg.data taken before the new payload is stored")
     ps = repo.func(NET, "PeriodicMessageTask.stop", "C17.R6")
     chk.saw(ps)
     chk.check(bool([c for c in find_calls(ps.node, ".stop") if dotted(c.func) == "self._task.stop"]), "R6", f"{NET}:PeriodicMessageTask.stop", ps.loc(),
